@@ -65,7 +65,7 @@ func allSeries(thorough bool) []seriesT {
 	if thorough {
 		nest = pow10s(1, 6, "2000000", "4000000")
 	}
-	for _, v := range []string{"open", "closed"} {
+	for _, v := range []string{"open", "closed", "sibopen", "sibclosed", "scalarclosed"} {
 		ss = append(ss, seriesT{"nesting", v, "nonstrict", nest, true})
 	}
 	unt := []string{"1000", "10000", "100000", "1000000"}
@@ -136,6 +136,16 @@ func familyText(family, variant, nStr string) (string, bool) {
 		return hdr + rep("<L", n), true
 	case "nesting/closed":
 		return hdr + rep("<L", n) + rep(">", n) + ".", true
+	// every level first holds an already closed (empty) list, then opens the next level: depth
+	// accounting that is not balanced across a closed child (seeded/C14) lets this shape through
+	// a nesting limit that stops the plain chain
+	case "nesting/sibopen":
+		return hdr + rep("<L <L> ", n), true
+	case "nesting/sibclosed":
+		return hdr + rep("<L <L> ", n) + rep(">", n) + ".", true
+	// same with a scalar item before each level
+	case "nesting/scalarclosed":
+		return hdr + rep("<L <U1 1> ", n) + rep(">", n) + ".", true
 	case "unterminated/asciiq":
 		return hdr + `<A "` + rep("x", n), true
 	case "unterminated/asciinum":
